@@ -1018,7 +1018,6 @@ int __wrap_timerfd_create(int clockid, int flags)
 
 int __wrap_timerfd_settime(int fd, int flags, const struct itimerspec *nv, struct itimerspec *ov)
 {
-	(void)flags;
 	(void)ov;
 	struct simfd *f = live("timerfd_settime", fd, K_TIMER);
 	if (!f) return -1;
@@ -1032,6 +1031,10 @@ int __wrap_timerfd_settime(int fd, int flags, const struct itimerspec *nv, struc
 		return -1;
 	}
 	uint64_t v = (uint64_t)nv->it_value.tv_sec * 1000000000ull + (uint64_t)nv->it_value.tv_nsec;
+	if ((flags & TFD_TIMER_ABSTIME) && v != 0) {
+		/* an absolute point of time on the timer's clock: what is left of it from now on (at once, if it has passed) */
+		v = v > now_ns ? v - now_ns : 1;
+	}
 	f->nsettime++;
 	trace_ev("[\"t\",%d,%llu]", fd, (unsigned long long)v);
 	if (v == 0) {
